@@ -582,6 +582,12 @@ pub fn mean(values: &[Value]) -> Value {
   Value::Number(sum / values.len().into())
 }
 
+/// Returns `true` for NaN, the only number that is not equal to itself.
+#[allow(clippy::eq_op)]
+fn is_not_a_number(n: &FeelNumber) -> bool {
+  n != n
+}
+
 /// Returns the median of numbers.
 pub fn median(values: &[Value]) -> Value {
   if values.is_empty() {
@@ -594,6 +600,10 @@ pub fn median(values: &[Value]) -> Value {
     } else {
       return value_null!("median");
     }
+  }
+  // a number that is not a number has no place in an order (and the sort panics without an order)
+  if list.iter().any(is_not_a_number) {
+    return value_null!("median");
   }
   list.sort_by(|x, y| x.partial_cmp(y).unwrap_or(std::cmp::Ordering::Equal));
   let index = values.len() / 2;
@@ -653,6 +663,10 @@ pub fn mode(values: &[Value]) -> Value {
     } else {
       return invalid_argument_type!("mode", "number", value.type_of());
     }
+  }
+  // a number that is not a number has no place in an order (and the sort panics without an order)
+  if list.iter().any(is_not_a_number) {
+    return value_null!("mode");
   }
   // sort values in ascending order
   list.sort_by(|x, y| x.partial_cmp(y).unwrap_or(std::cmp::Ordering::Equal));
